@@ -299,7 +299,7 @@ NS_ALPHA = {
 }
 
 
-NS_CLOCKS = ["float", "zero", "int0", "same"]
+NS_CLOCKS = ["float", "zero", "int0", "same", "wrap"]
 
 
 def ns_clock(kind, k):
@@ -311,6 +311,10 @@ def ns_clock(kind, k):
         return 0.25 * k
     if kind == "int0":
         return k
+    if kind == "wrap":
+        # receiver time of day (Skysense) wrapping at midnight after the second message: timestamps are NOT monotone;
+        # "in order" means the order in which the messages were handed over
+        return [86399.25, 86399.75][k] if k < 2 else 0.25 + 0.5 * (k - 2)
     return 5.0
 
 
@@ -318,7 +322,7 @@ def ns_run(seq, batching, cls="net", clock="float"):
     if cls == "net":
         src = NetSource("localhost", 0, "beast")
     else:
-        src = object.__new__(RtlSdrSource)      # the constructor would open the SDR device
+        src = RtlSdrSource()                    # the real constructor (stand-in rtlsdr module, see engine.loader.fake_rtlsdr)
         src.reset_local_buffer()
     src.stop_flag = _Flag()
     pipe = _Pipe()
